@@ -14331,7 +14331,8 @@ func (e *MulticastFlagsExtended) Serialize() ([]byte, error) {
 
 	if e.IsIGMPProxy {
 		buf[3] |= uint8(IGMP_PROXY)
-	} else if e.IsMLDProxy {
+	}
+	if e.IsMLDProxy {
 		buf[3] |= uint8(MLD_PROXY)
 	}
 	return buf, nil
